@@ -470,6 +470,54 @@ func poolAllocatorAdapter(g Geometry) Adapter {
 		}}
 }
 
+// poolAllocatorDualAdapter: the pool under test shares its store with a second pool (another address family)
+// in which every subscriber already holds a record, as a dual-stack subscriber does.
+func poolAllocatorDualAdapter(g Geometry) Adapter {
+	a := poolAllocatorAdapter(g)
+	a.Impl = "allocator.PoolAllocator-dual"
+	a.mk = func() *impl {
+		st := &failingAllocStore{MemoryAllocationStore: allocator.NewMemoryAllocationStore()}
+		other, err := allocator.NewPoolAllocatorWithType(allocator.PoolAllocatorConfig{PoolID: "q", BaseNetwork: "2001:db8:77::/48", PrefixLength: 56, Store: st})
+		if err != nil {
+			panic(err)
+		}
+		for i := 1; i <= 3; i++ {
+			if _, err := other.Allocate(bg, defaultSubID(i), ""); err != nil {
+				panic(err)
+			}
+		}
+		pa, err := allocator.NewPoolAllocator("p", g.CIDR, g.Alloc, st)
+		if err != nil {
+			panic(err)
+		}
+		im := &impl{objs: []any{pa}}
+		im.alloc = func(id string) (int, error) {
+			p, err := pa.Allocate(bg, id, "")
+			if err != nil {
+				return -1, err
+			}
+			return g.UnitOfNet(p), nil
+		}
+		im.allocF = func(id string) (int, error) {
+			st.failSave = true
+			u, err := im.alloc(id)
+			st.failSave = false
+			return u, err
+		}
+		im.release = func(id string) error { return pa.Release(bg, id) }
+		im.lookup = func(id string) int {
+			p := pa.Lookup(id)
+			if p == nil {
+				return -1
+			}
+			return g.UnitOfNet(p)
+		}
+		im.stats = func() (int, int) { al, tot, _ := pa.Stats(); return int(al), int(tot) }
+		return im
+	}
+	return a
+}
+
 func localAllocatorAdapter(g Geometry) Adapter {
 	n := g.NUnits()
 	return Adapter{Impl: "allocator.LocalAllocator", Geo: g, Mode: "session", Usable: seq(0, n-1),
